@@ -3,6 +3,8 @@ C19 helper lemmas, part 3: surfaces, volumes, units, rect arrays.
 -/
 import CelerVerif.Lemmas.OrangeIOLogic
 
+set_option linter.unusedSimpArgs false
+
 namespace CelerVerif.OrangeIO
 open CelerVerif.Json
 
@@ -29,6 +31,9 @@ theorem getU64_int_small (n : Nat) (h : n < 18446744073709551616) :
 def Surface.Valid (fin : F64 → Prop) (s : Surface) : Prop :=
   s.ty < numSurfTypes ∧ Generated.OrangeIO.surfaceReadable.getD s.ty false = true ∧
   s.data.length = surfSize s.ty ∧ ∀ b ∈ s.data, fin b
+
+instance (fin : F64 → Prop) [DecidablePred fin] (s : Surface) : Decidable (s.Valid fin) := by
+  unfold Surface.Valid; infer_instance
 
 theorem importSurf_ok {fin : F64 → Prop} (ss : List Surface) (h : ∀ s ∈ ss, s.Valid fin) :
     ∀ rest, importSurf (ss.map fun s => surfName s.ty)
@@ -94,6 +99,8 @@ def Volume.Valid (v : Volume) : Prop :=
   v.label.Valid ∧ v.obz = OBZ.default ∧ zorderOfChar (zorderToChar v.zorder) = v.zorder ∧
   (if v.zorder = zBackground then v.logic = [ltrueW, lnotW] ∧ v.bbox = BBox.null
    else v.logic ≠ [] ∧ (∀ t ∈ v.logic, tokenOK t) ∧ v.bbox.RT)
+
+instance (v : Volume) : Decidable v.Valid := by unfold Volume.Valid; infer_instance
 
 theorem decodeZorder_encodeVolume (num : F64 → Json) (v : Volume)
     (hz : zorderOfChar (zorderToChar v.zorder) = v.zorder) :
@@ -186,5 +193,86 @@ theorem emplaceAll_sorted (ds : List (UInt64 × Daughter)) :
       rcases he with he | he
       · exact hm e he x (by simp [hx])
       · subst he; exact hp.1 x hx
+
+/-- what a unit needs to survive the round trip -/
+def UnitInput.Valid (fin : F64 → Prop) (u : UnitInput) : Prop :=
+  u.label.Valid ∧ (∀ s ∈ u.surfaces, s.Valid fin) ∧ (∀ v ∈ u.volumes, v.Valid) ∧
+  (u.bbox.valid = true ∧ u.bbox.lo.noMax ∧ u.bbox.hi.noMax) ∧
+  u.daughters.Pairwise (fun a b => a.1 < b.1) ∧ (∀ d ∈ u.daughters, d.2.transform.Fin fin) ∧
+  (∀ l ∈ u.surfaceLabels, l.Valid) ∧
+  (u.surfaceLabels.length = u.surfaces.length ∨ u.surfaceLabels = [])
+
+instance (fin : F64 → Prop) [DecidablePred fin] (u : UnitInput) : Decidable (u.Valid fin) := by
+  unfold UnitInput.Valid; infer_instance
+
+theorem decodeUnit_encodeUnit {num : F64 → Json} {fin : F64 → Prop} (hn : NumOK num fin)
+    (u : UnitInput) (h : u.Valid fin) : decodeUnit (encodeUnit num u) = .ok u := by
+  obtain ⟨hlab, hsurf, hvol, hbox, hsorted, htr, hsl, hslen⟩ := h
+  have h1 : bindR (bindR ((encodeUnit num u).atKey "md") (·.atKey "name")) decodeLabel
+      = .ok u.label := by
+    simp [encodeUnit, lookup_append, decodeLabel_encodeLabel u.label hlab]
+  have h2 : bindR ((encodeUnit num u).atKey "surfaces") decodeSurfaces = .ok u.surfaces := by
+    simp [encodeUnit, lookup_append, decodeSurfaces_encodeSurfaces hn u.surfaces hsurf]
+  have h3 : decodeVolumesKey (encodeUnit num u)
+      = .ok (u.volumes.map fun v => { v with label := ⟨"", ""⟩ }) := by
+    have := mapE_map decodeVolume (encodeVolume num) (fun v => { v with label := ⟨"", ""⟩ })
+      u.volumes (fun v hv => decodeVolume_encodeVolume hn v (hvol v hv))
+    simp [decodeVolumesKey, encodeUnit, findFirst, lookup_append, Json.getArr, this]
+  have h4 : decodeLabelsKey (encodeUnit num u) ["volume_labels", "cell_names"]
+      = .ok (u.volumes.map (·.label)) := by
+    have := decodeLabels_encode (u.volumes.map (·.label)) (by
+      intro l hl
+      simp only [List.mem_map] at hl
+      obtain ⟨v, hv, rfl⟩ := hl
+      exact (hvol v hv).1)
+    simp only [List.map_map] at this
+    simp [decodeLabelsKey, encodeUnit, findFirst, lookup_append]
+    exact this
+  have h5 : decodeLabelsKey (encodeUnit num u) ["surface_labels", "surface_names"]
+      = .ok u.surfaceLabels := by
+    simp [decodeLabelsKey, encodeUnit, findFirst, decodeLabels_encode u.surfaceLabels hsl]
+  have h6 : getBBox (encodeUnit num u) = .ok u.bbox := by
+    simp only [getBBox, encodeUnit, find_obj, lookup_append, lookup_optKey, lookup_cons, lookup_nil]
+    by_cases hi : u.bbox.isInfinite = true
+    · have : u.bbox = BBox.infinite := by simpa [BBox.isInfinite] using hi
+      have hi' : BBox.infinite.isInfinite = true := by decide
+      cases hd : u.daughters.isEmpty <;> simp [this, hi', hd]
+    · cases hd : u.daughters.isEmpty <;>
+        simp [hi, hd, hbox.1, decodeBBox_encodeBBox hn u.bbox (Or.inr hbox)]
+  have h7 : ∀ m, decodeDaughtersKey (encodeUnit num u) "parent_volumes" m = .ok m := by
+    intro m
+    simp only [decodeDaughtersKey, encodeUnit, find_obj, lookup_append, lookup_optKey, lookup_cons,
+      lookup_nil]
+    cases u.daughters.isEmpty <;> simp
+  have h8 : decodeDaughtersKey (encodeUnit num u) "parent_cells" [] = .ok u.daughters := by
+    cases hd : u.daughters.isEmpty
+    · have htrs : mapE importTransform
+          (u.daughters.map fun d => exportTransform num d.2.transform)
+          = .ok (u.daughters.map (·.2.transform)) :=
+        mapE_map _ _ _ _ (fun d hd => importTransform_export hn d.2.transform (htr d hd))
+      have hem := emplaceAll_sorted u.daughters [] hsorted (by simp)
+      simp only [List.nil_append] at hem
+      have hp : (Json.arr (u.daughters.map fun d => u64 d.1)).getU64List
+          = .ok (u.daughters.map (·.1)) := by
+        simp only [Json.getU64List, Json.getArr]
+        exact mapE_map _ _ _ _ (fun d _ => getU64_u64 d.1)
+      have hdd : (Json.arr (u.daughters.map fun d => u64 d.2.univ)).getU64List
+          = .ok (u.daughters.map (·.2.univ)) := by
+        simp only [Json.getU64List, Json.getArr]
+        exact mapE_map _ _ _ _ (fun d _ => getU64_u64 d.2.univ)
+      simp [decodeDaughtersKey, encodeUnit, lookup_append, hd, hp, hdd, readUnitTransforms,
+        Json.iterValues, htrs, hem]
+    · have : u.daughters = [] := by simpa using hd
+      simp [decodeDaughtersKey, encodeUnit, lookup_append, hd, this]
+  simp only [decodeUnit, h1, h2, h3, h4, h5, h6, h7, bindR_ok, h8]
+  simp only [List.length_map, decide_true, Bool.true_or, validate_true, bindR_ok,
+    assignLabels_strip]
+  have hv : (decide (u.surfaceLabels.length = u.surfaces.length) || u.surfaceLabels.isEmpty)
+      = true := by
+    rcases hslen with h | h
+    · simp [h]
+    · simp [h]
+  rw [hv]
+  rfl
 
 end CelerVerif.OrangeIO
